@@ -43,7 +43,8 @@ class UserError(TartifletteError):
 
 
 class PlainObj:
-    pass
+    def __repr__(self):  # no memory address: engine messages embed reprs and responses are compared
+        return "<PlainObj>"
 
 
 class Materialiser:
@@ -72,7 +73,7 @@ class Materialiser:
             else:
                 cls = self.classes.get(node["_typename"])
                 if cls is None:
-                    cls = type(node["_typename"], (), {})
+                    cls = type(node["_typename"], (), {"__repr__": lambda self: "<%s instance>" % type(self).__name__})
                     self.classes[node["_typename"]] = cls
                 o = cls()
             o._nid = nid
